@@ -79,6 +79,49 @@ class TagifRepr(Tagif):
         return self.markup
 
 
+class TagifRaw(Tagif):
+    """Tagifiable whose tagify() returns its expansion as built (no recursive tagify)."""
+
+    def tagify(self):
+        self.calls += 1
+        return build(self.result_spec)
+
+
+def build_jsx(spec):
+    """["J", name, props, kids, mode]; props = [[rawname, valuespec], ...]; value specs are
+    plain JSON values, or ["TUP", [...]], or node specs (["E"..], ["J"..], ["JX"..], ["XJ"..])."""
+    from htmltools._jsx import JSXTag
+    _, name, props, kids, mode = spec
+    kw = {k: build_jsx_value(v) for k, v in props}
+    ch = [build(c) for c in kids]
+    if mode == "ctor":
+        return JSXTag(name, *ch, **kw)
+    t = JSXTag(name, **kw)
+    if mode == "append":
+        for c in ch:
+            t.append(c)
+    elif mode == "extend":
+        t.extend(ch)
+    elif mode == "append-all":
+        if ch:
+            t.append(*ch)
+    else:
+        raise ValueError(mode)
+    return t
+
+
+def build_jsx_value(v):
+    if isinstance(v, list) and v and isinstance(v[0], str) and v[0] in ("E", "J", "JX", "XJ", "D"):
+        return build(v)
+    if isinstance(v, list) and v and v[0] == "TUP":
+        return tuple(build_jsx_value(x) for x in v[1])
+    if isinstance(v, list) and v and v[0] == "LIST":
+        return [build_jsx_value(x) for x in v[1]]
+    if isinstance(v, dict):
+        return {k: build_jsx_value(x) for k, x in v.items()}
+    return v
+
+
 def build_attr_value(v: Any) -> Any:
     if isinstance(v, list):
         if v[0] == "H":
@@ -134,6 +177,13 @@ def build(spec: Any) -> Any:
         return b"x"
     if k == "GEN":
         return (build(c) for c in spec[1])
+    if k == "J":
+        return build_jsx(spec)
+    if k == "JX":
+        from htmltools._jsx import jsx
+        return jsx(spec[1])
+    if k == "XJ":
+        return TagifRaw(spec[1])
     raise ValueError(f"unknown spec kind {k!r}")
 
 
